@@ -76,10 +76,25 @@ type MemConn struct {
 	start time.Time
 
 	gated atomic.Bool
+	// interceptKV, if set, is appended to the outgoing metadata of every
+	// stream opened on the connection, the way a client stream interceptor
+	// (auth token, tracing, tenant id) does: it travels on the wire and is
+	// visible in the context of the opened stream, not in the caller's.
+	interceptKV atomic.Pointer[[]string]
 
 	mu       sync.Mutex
 	services map[string]svcEntry
 	links    []*Link
+}
+
+// SetClientInterceptor installs (or, with no arguments, removes) the metadata a
+// modelled client stream interceptor adds to every stream opened from now on.
+func (c *MemConn) SetClientInterceptor(kv ...string) {
+	if len(kv) == 0 {
+		c.interceptKV.Store(nil)
+		return
+	}
+	c.interceptKV.Store(&kv)
 }
 
 // SetGated switches gating of newly emitted frames on or off.
@@ -132,6 +147,9 @@ func (a memAddr) String() string  { return string(a) }
 func (c *MemConn) NewStream(ctx context.Context, desc *grpc.StreamDesc, method string, opts ...grpc.CallOption) (grpc.ClientStream, error) {
 	if err := ctx.Err(); err != nil {
 		return nil, status.FromContextError(err).Err()
+	}
+	if kv := c.interceptKV.Load(); kv != nil {
+		ctx = metadata.AppendToOutgoingContext(ctx, *kv...)
 	}
 	parts := strings.SplitN(strings.TrimPrefix(method, "/"), "/", 2)
 	if len(parts) != 2 {
